@@ -161,49 +161,40 @@ theorem subnormal_sliver_witness :
     mpf2float binary32 .false (.fin true 3 (-151)) none .n = .bits 0x80000000 := by
   decide +kernel
 
-/-! ### flag plumbing of `vectorize_with_mpmath.__init__`
+/-! ### flag plumbing of `vectorize_with_mpmath.__init__` (full strength since /repo commit 724e786) -/
 
-Full statement of DESIGN `C15.plumbing` — "the effective flush setting equals the requested one and is
-False when unspecified":
-  `∀ kw, effectiveFlush kw .false = requestedFlush kw .false`
-is FALSE of the code as written: the conditional `flush_subnormals if flush_subnormals is UNSPECIFIED else
-default_flush_subnormals` has its branches the wrong way round.  KNOWN FINDING (known_findings.json). -/
-
-/-- **plumbing_actual**: what the code does — an absent/UNSPECIFIED keyword stores the truthy singleton
-(⇒ flushing), any explicit value stores the module default. -/
-theorem plumbing_actual (kw : Option PyVal) (dflt : PyVal) :
-    effectiveFlush kw dflt =
-      match kw with
-      | none => true
-      | some v => if v.isUnspecified then true else dflt.truthy := by
+/-- **plumbing**: for every value of the `flush_subnormals` keyword (absent, `UNSPECIFIED`, `True`, `False`,
+`None`, any int) and every module default, the setting `mpf2float` acts on (truthiness of the stored
+attribute) is the requested one: the keyword's own truthiness when given, the module default otherwise. -/
+theorem plumbing (kw : Option PyVal) (dflt : PyVal) : effectiveFlush kw dflt = requestedFlush kw dflt := by
   cases kw with
   | none => rfl
   | some v => cases v <;> rfl
 
-/-- **plumbing_partial**: effective = requested exactly for explicit falsy values (with the module default
-`False`): `False`, `None`, `0`. -/
-theorem plumbing_partial (v : PyVal) (h1 : v.isUnspecified = false) (h2 : v.truthy = false) :
-    effectiveFlush (some v) .false = requestedFlush (some v) .false := by
-  cases v <;> simp_all [effectiveFlush, requestedFlush, initFlush, PyVal.isUnspecified, PyVal.truthy]
-
-/-- Negation witnesses: unspecified ⇒ flushes although `False` is requested; … -/
-theorem plumbing_neg_unspecified :
-    effectiveFlush none .false = true ∧ requestedFlush none .false = false ∧
-    effectiveFlush (some .unspecified) .false = true ∧ requestedFlush (some .unspecified) .false = false := by
+/-- **plumbing_unspecified**: with the module default `default_flush_subnormals = False`, an absent or
+`UNSPECIFIED` keyword means NO flushing, `True` means flushing, `False`/`None`/`0` mean none. -/
+theorem plumbing_unspecified :
+    effectiveFlush none .false = false ∧ effectiveFlush (some .unspecified) .false = false ∧
+    effectiveFlush (some .true) .false = true ∧ effectiveFlush (some .false) .false = false ∧
+    effectiveFlush (some .none) .false = false ∧ effectiveFlush (some (.int 0)) .false = false ∧
+    effectiveFlush (some (.int 1)) .false = true := by
   decide
 
-/-- … `flush_subnormals=True` ⇒ stored `False`, no flushing. -/
-theorem plumbing_neg_true :
-    initFlush (some .true) .false = .false ∧ effectiveFlush (some .true) .false = false ∧
-    requestedFlush (some .true) .false = true := by
+/-- **plumbing_regression**: the conditional as it was before the fix 724e786 (`initFlushPre724e786`) stored
+the truthy `UNSPECIFIED` singleton when the keyword was unspecified (⇒ flushing although `False` was
+requested) and stored `False` for `flush_subnormals=True` (⇒ the requested flushing never happened). -/
+theorem plumbing_regression :
+    (initFlushPre724e786 none .false).truthy = true ∧ requestedFlush none .false = false ∧
+    initFlushPre724e786 (some .true) .false = .false ∧ requestedFlush (some .true) .false = true ∧
+    initFlush none .false = .false ∧ initFlush (some .true) .false = .true := by
   decide
 
-/-- End-to-end negation witness, replayed on the real code (corpus/C15): the identity function through
-`vectorize_with_mpmath` on float32 1e-40 (`0x000116C2`, subnormal): unspecified → +0.0 (input lost),
-`flush_subnormals=True` → returned unchanged (not flushed), `False` → unchanged. -/
-theorem identity_flush_neg_witness :
-    call binary32 none .false 0 1 0 .id 0x000116C2 0 = some (.bits 0) ∧
-    call binary32 (some .true) .false 0 1 0 .id 0x000116C2 0 = some (.bits 0x000116C2) ∧
+/-- **identity_flush_regression**, replayed on the real code (corpus/C15): the identity function through
+`vectorize_with_mpmath` on float32 1e-40 (`0x000116C2`, subnormal): unspecified → returned unchanged,
+`flush_subnormals=True` → +0.0 (flushed, as requested), `False` → unchanged.  (Before 724e786: 0.0 / 1e-40 / 1e-40.) -/
+theorem identity_flush_regression :
+    call binary32 none .false 0 1 0 .id 0x000116C2 0 = some (.bits 0x000116C2) ∧
+    call binary32 (some .true) .false 0 1 0 .id 0x000116C2 0 = some (.bits 0) ∧
     call binary32 (some .false) .false 0 1 0 .id 0x000116C2 0 = some (.bits 0x000116C2) := by
   decide +kernel
 
@@ -305,8 +296,8 @@ example : dyLt 71362 (-149) (2 ^ 25 - 1) (binary32.emin - 2) ∧
     mpf2float binary32 .false (.fin false 71362 (-149)) none .n = .bits 71362 := by
   decide +kernel
 
-/-- `plumbing_partial`: `flush_subnormals=None` is explicit and falsy. -/
-example : PyVal.none.isUnspecified = false ∧ PyVal.none.truthy = false := by decide
+/-- `plumbing`: an explicit `flush_subnormals=2` (truthy int) is honoured; unspecified follows a default of `True`. -/
+example : effectiveFlush (some (.int 2)) .false = true ∧ effectiveFlush none .true = true := by decide
 
 /-- `work_prec`: float32 with `extra_prec_multiplier=1/2, extra_prec=3` works at 24 + 12 + 3 = 39 bits. -/
 example : 0 ≤ extraPrec 24 1 2 3 ∧ workPrec 24 1 2 3 = 39 := by decide
